@@ -5,7 +5,7 @@
 From Coq Require Import List Arith Bool.
 Import ListNotations.
 From C17 Require Import Sem Progs Static Annot FutRaw.
-From C17 Require Exec ExecLive Ss FutCopy0 Per Owner Sd.
+From C17 Require Exec ExecLive Ss FutCopy0 Per Owner Sd WitnessR8.
 From Coq Require Import Permutation.
 
 (* Data-race freedom of the model: whenever a thread is about to execute an instruction that reads
@@ -259,3 +259,18 @@ Theorem c17_ss_nested_drain_exec_once : forall lims rs k s, reach P (init_ssd li
                             forall t, t < nthr s -> stat (thr s t) = Done).
 Proof. exact Sd.sd_exec_once. Qed.
 Print Assumptions c17_ss_nested_drain_exec_once.
+
+(* ---- FilePreferenceSaverThread::Start() immediately followed by Join() (scenario init_prefsj), the code BEFORE
+   fix 05 (WitnessR8.P8: Join() calls m_ss.Terminate() on the caller's thread, which does nothing while the saver
+   thread has not yet set m_is_running): under the schedule below the owner returns from Start() and calls Join()
+   before the saver thread has entered SelectServer::Run(); the terminate request is lost, the owner blocks in
+   pthread_join (pc 19) and the saver thread can only time out in poll() - after 300 scheduling steps the run is
+   still going, the saver has not finished.  With fix 05 (Join() queues a callback that calls Terminate() on the
+   saver thread) the same schedule finishes. *)
+Theorem c17_saver_join_hang_before_fix :
+  snd (run WitnessR8.P8 300 init_prefsj WitnessR8.hang_schedule 0 [] []) = OutOfFuel /\
+  stat (thr (fst (fst (run WitnessR8.P8 300 init_prefsj WitnessR8.hang_schedule 0 [] []))) 1) <> Done /\
+  pc (thr (fst (fst (run WitnessR8.P8 300 init_prefsj WitnessR8.hang_schedule 0 [] []))) 0) = 19 /\
+  snd (run P 300 init_prefsj WitnessR8.hang_schedule 0 [] []) = Finished.
+Proof. exact WitnessR8.saver_join_hangs_before_fix. Qed.
+Print Assumptions c17_saver_join_hang_before_fix.
